@@ -510,6 +510,32 @@ func genCase(t *rapid.T) Case {
 		b.Pairs = rapid.Permutation(b.Pairs).Draw(t, "porder")
 		c.Builds = append(c.Builds, b)
 	}
+	// two builds of one route whose lists of pairs are different lists but read
+	// alike once joined with a separator ("a","x","b","y/b/z" against
+	// "a","x/b/y","b","z"): each call is answered from its own arguments
+	for _, r := range c.Routes {
+		if rapid.IntRange(0, 2).Draw(t, "collide") != 0 {
+			continue
+		}
+		var binds []string
+		for _, sg := range rt.Deriv(r.R).Segs {
+			_, b, _ := sg.Classify()
+			binds = append(binds, b...)
+		}
+		if len(binds) < 2 {
+			continue
+		}
+		sep := []string{"/", ",", "=", "&", " ", "\x00"}[rapid.IntRange(0, 5).Draw(t, "csep")]
+		pc := func(l string) string { return []string{"x", "y", "z", "", "12"}[rapid.IntRange(0, 4).Draw(t, l)] }
+		p1, p2, p3 := pc("c1"), pc("c2"), pc("c3")
+		a, b := binds[0], binds[1]
+		first := Build{Name: r.Name, WithOptional: "-", Pairs: [][2]string{{a, p1}, {b, p2 + sep + b + sep + p3}}}
+		second := Build{Name: r.Name, WithOptional: "-", Pairs: [][2]string{{a, p1 + sep + b + sep + p2}, {b, p3}}}
+		if rapid.Bool().Draw(t, "corder") {
+			first, second = second, first
+		}
+		c.Builds = append(c.Builds, first, second)
+	}
 	var regs []rt.Reg
 	for _, r := range c.Routes {
 		m := "GET"
